@@ -177,7 +177,9 @@ Rejected == /\ l <= Len(Trace) /\ Trace[l].ev \in {"Rejected", "Names"} /\ l' = 
             /\ UNCHANGED <<sem, pats, bad, known, block, failStatus, stats, pos>>
 \* a handler that calls back into its own middleware (Config, SetDebug, Reconfigure(Config())) never returned: its response
 \* does not reach the client (C11)
-Hang == /\ Ev("Hang") /\ bad' = (IF Prop = "C11" THEN bad \cup {l} ELSE bad)
+\* ... or a call into the library blocked for good and a plain request sent through the middleware afterwards never came back
+\* (the driver's watchdog; `reqhang`): the wrapped handler is not reached
+Hang == /\ Ev("Hang") /\ bad' = (IF Prop = "C11" /\ Trace[l].reqhang THEN bad \cup {l} ELSE bad)
         /\ UNCHANGED <<sem, pats, known, block, failStatus, stats, pos>>
 \* the header map of a response the handler had not committed changed after the middleware returned (other middlewares served
 \* requests in between): the client gets headers that are not this response's (C03: well-formedness; C12: independence)
